@@ -112,20 +112,52 @@ impl<'a> CycRef<'a> {
                 }
             }
         } else {
-            // Kleene iteration from bottom (simultaneous): least fixpoint for monotone bodies
+            // Strongly connected components in dependency order (callees first); inside a
+            // component Kleene iteration from bottom (least fixpoint for monotone bodies), with
+            // everything below already final. Acyclic block nodes are evaluated exactly once.
+            let reach: Vec<BTreeSet<usize>> = (0..n).map(|i| me.reach(i)).collect();
+            let mut done: BTreeSet<usize> = (0..lo).collect();
             let limit = 400;
-            loop {
-                me.rounds += 1;
-                let mut next = me.vals.clone();
+            while done.len() < hi {
+                let mut progressed = false;
                 for i in lo..hi {
-                    next[i] = me.body(i, &me.vals).0;
+                    if done.contains(&i) {
+                        continue;
+                    }
+                    let scc: Vec<usize> = (lo..hi).filter(|j| *j == i || (reach[i].contains(j) && reach[*j].contains(&i))).collect();
+                    let ready = scc.iter().all(|m| me.edges[*m].iter().all(|c| done.contains(c) || scc.contains(c)));
+                    if !ready {
+                        continue;
+                    }
+                    let cyclic = scc.len() > 1 || me.edges[i].contains(&i);
+                    if !cyclic {
+                        me.vals[i] = me.body(i, &me.vals).0;
+                    } else {
+                        for m in &scc {
+                            me.vals[*m] = 0;
+                        }
+                        let mut rounds = 0;
+                        loop {
+                            rounds += 1;
+                            let mut next = me.vals.clone();
+                            for m in &scc {
+                                next[*m] = me.body(*m, &me.vals).0;
+                            }
+                            if next == me.vals {
+                                break;
+                            }
+                            me.vals = next;
+                            if rounds > limit {
+                                me.diverged = true;
+                                break;
+                            }
+                        }
+                        me.rounds = me.rounds.max(rounds);
+                    }
+                    done.extend(scc);
+                    progressed = true;
                 }
-                if next == me.vals {
-                    break;
-                }
-                me.vals = next;
-                if me.rounds > limit {
-                    me.diverged = true;
+                if !progressed {
                     break;
                 }
             }
